@@ -99,9 +99,9 @@ pub open spec fn evs(es: Seq<PlistEntry>) -> Seq<EV> { Seq::new(es.len(), |i: in
 
 impl PlistEntry {
 //@ extract src/plist.rs : impl PlistEntry fn from_bytes
-//@ rewrite D7.expand_macros D6.osstr_from_bytes D6.position_byte D6.lossy_owned D1.for_subslice D6.string_starts_with_char D6.osstring_from_cmd D6.osstring_from_osstr D6.string_from_utf8_os D6.opt_os_to_str
+//@ rewrite D7.expand_macros D6.osstr_from_bytes D6.position_byte D6.lossy_owned D1.for_subslice D6.string_starts_with_char D6.osstring_from_cmd D6.osstring_from_osstr D6.string_from_utf8_os D6.opt_os_to_str D14.question_mark
     pub fn from_bytes(bytes: &[u8]) -> (r: Result<PlistEntry>)
-        ensures (match entry_spec(bytes@) { Ok(v) => r is Ok && ev(r->Ok_0) == v, Err(k) => r is Err && (k != PErr::Utf8 ==> perr(r->Err_0) == k) })
+        ensures (match entry_spec(bytes@) { Ok(v) => r is Ok && ev(r->Ok_0) == v, Err(k) => r is Err && perr(r->Err_0) == k })
     {
         let ghost b0 = bytes@;
         let line = OsStr::from_bytes(bytes);
